@@ -109,7 +109,24 @@ def r1(cx):
     dc = [c for c in b.calls() if c.q.endswith("tree::build::dyn_build_act")]
     ok = len(dc) == 1 and pa.root(b, dc[0].args[-1]) == ("param", 3, b.names.get(3), ())
     src = pa.iter_source(b, ("call",) + pa.root(b, dc[0].args[0])[1:3] + ((),)) if dc and pa.root(b, dc[0].args[0])[0] == "call" else None
-    cx.ob("C16.R1", "build_acts:flag-and-all", ok, "build_acts hands its is_sequence flag to dyn_build_act for every act of the list", dc[0].loc if dc else b.loc())
+    d = m.one(r"^acts::scheduler::tree::build::dyn_build_act$")
+    cursor_shape = "prev" in d.names.values()
+    if cursor_shape:
+        cx.ob("C16.R1", "build_acts:flag-and-all", ok, "build_acts hands its is_sequence flag to dyn_build_act for every act of the list", dc[0].loc if dc else b.loc())
+    else:
+        # the other shape: nodes are created first and linked afterwards by a loop over adjacent pairs
+        pair_calls = [c for c in b.calls() if re.search(r"slice::<impl \[.*\]>::(windows|array_windows|chunks|chunks_exact|rchunks|chunks_mut)$", c.q)]
+        steps = [c for c in b.calls() if re.search(r"Iterator(>)?::step_by$", c.q)]
+        sn = [c for c in b.calls() if c.q.endswith("Node::set_next")]
+        if not sn or not pair_calls:
+            cx.undecide("C16.R1", "dyn_build_act has no `prev` cursor and build_acts links its nodes in a way the rule does not know (no loop over adjacent pairs found)")
+        else:
+            pc = pair_calls[0]
+            size = pa.root(b, pc.args[1]) if len(pc.args) > 1 else None
+            full = pc.q.endswith("::windows") and size is not None and size[0] == "const" and size[1].get("int") == "2" and not steps
+            cx.ob("C16.R1", "build_acts:chain-complete", full,
+                  "build_acts links the nodes of a sequence by walking every adjacent pair (`windows(2)`)%s" % (
+                      "" if full else " - but it walks `%s`: not every neighbour is linked, the chain of a list with three or more acts breaks and the rest never runs" % pc.q.split("::")[-1]), pc.loc)
     cx.floor("C16.R1", 9)
 
 
